@@ -3,7 +3,7 @@ from pv import common, gen, lsrun
 
 PID = "C03"
 RULE = ("seeded DCOPs (2-6 vars, domains 2-4, binary and ternary constraints, unary constraints, variable costs, "
-        "min and max, palettes ties/distinct/float/neg/bigbase (1e12 + 0..9)/bigmix (small costs and avoidable 1e12 penalties); a quarter are tie-rich 3-4 variable trees with costs in {0,1,2} or decimal fractions {0, .1, .2, .3, .4, .7} run mostly with mgm2) run with mgm (break_mode lexic/random) and mgm2 "
+        "min and max, palettes ties/distinct/float/neg/bigbase (1e12 + 0..9)/bigmix (small costs and avoidable 1e12 penalties); a third are tie-rich 3-5 variable trees with costs in {0,1,2} or decimal fractions {0, .1, .2, .3, .4, .7} run mostly with mgm2) run with mgm (break_mode lexic/random) and mgm2 "
         "(threshold 0.2/0.5/0.9, favor unilateral/no/coordinated), stop_cycle 3..12, several random FIFO "
         "schedules each; monitor compares logical per-component cycle cuts A_k / A_k+1 (cost incl. variable "
         "costs, movers sharing a constraint); non-trivial = >=1 value change after the initial selection and "
@@ -21,10 +21,10 @@ def make_run(rng, seed, i, s, tier, tie_rich=False):
 
 
 def make_case(rng, tier):
-    if rng.random() < 0.25:
+    if rng.random() < 0.35:
         # tie-rich tiny instances: exact ties between the gain of a coordinated move and of a neighbour's move, all
         # name orders between the partners and the neighbour
-        case = gen.gen_case(rng, min_vars=3, max_vars=4, max_dom=2, palettes=("bin", "dec"), max_space=2000, initial=True, var_costs=False,
+        case = gen.gen_case(rng, min_vars=3, max_vars=5, max_dom=2, palettes=("bin", "dec"), max_space=2000, initial=True, var_costs=False,
                             nary=False, unary=False, shapes=("chain", "star", "tree"))
         case["tie_rich"] = True
         if rng.random() < 0.6:
